@@ -835,3 +835,123 @@ func checkPeekedHandledConsumed(c *core.Ctx, st *core.RuleStat, rule string, pi 
 		}
 	}
 }
+
+// checkSliceRemovalIdiom: taking element i out of a slice is append(s[:i], s[i+1:]...) or
+// copy(s[i:], s[i+1:]) followed by cutting the slice by one. For every append / copy whose two
+// arguments are windows of the same slice (same local value, or the same field of the same
+// object) the rule requires that the second window starts exactly one element after the first
+// one ends (append) resp. starts (copy): any other pairing keeps the element that was to be
+// removed and drops or duplicates a neighbour.
+func checkSliceRemovalIdiom(c *core.Ctx, st *core.RuleStat, rule string, pi *PkgInfo, what string) {
+	sameSrc := func(a, b ssa.Value) bool {
+		if a == b {
+			return true
+		}
+		fa, fb := core.LoadedField(a), core.LoadedField(b)
+		if fa == nil || fa != fb {
+			return false
+		}
+		la, ok1 := a.(*ssa.UnOp)
+		lb, ok2 := b.(*ssa.UnOp)
+		if !ok1 || !ok2 {
+			return false
+		}
+		xa, ok1 := la.X.(*ssa.FieldAddr)
+		xb, ok2 := lb.X.(*ssa.FieldAddr)
+		return ok1 && ok2 && (xa.X == xb.X || core.LoadedField(xa.X) != nil && core.LoadedField(xa.X) == core.LoadedField(xb.X))
+	}
+	plusOne := func(j, i ssa.Value) bool {
+		if j == nil {
+			return false
+		}
+		bo, ok := j.(*ssa.BinOp)
+		if !ok || bo.Op != token.ADD {
+			return false
+		}
+		isOne := func(v ssa.Value) bool { k, ok := core.ConstInt(v); return ok && k == 1 }
+		if i == nil {
+			return false
+		}
+		return (bo.X == i && isOne(bo.Y)) || (bo.Y == i && isOne(bo.X))
+	}
+	zeroOrNil := func(v ssa.Value) bool {
+		if v == nil {
+			return true
+		}
+		k, ok := core.ConstInt(v)
+		return ok && k == 0
+	}
+	for _, fn := range pi.Funcs {
+		truncated := func(src ssa.Value) bool {
+			for _, b := range fn.Blocks {
+				for _, in := range b.Instrs {
+					sl, ok := in.(*ssa.Slice)
+					if ok && sl.High != nil && zeroOrNil(sl.Low) && sameSrc(sl.X, src) {
+						if _, isAppendArg := sl.High.(*ssa.BinOp); isAppendArg || true {
+							// a cut: s = s[:n] stored back or used as the new slice
+							if sl.Referrers() != nil {
+								for _, r := range *sl.Referrers() {
+									if _, isStore := r.(*ssa.Store); isStore {
+										return true
+									}
+								}
+							}
+						}
+					}
+				}
+			}
+			return false
+		}
+		for _, b := range fn.Blocks {
+			for _, in := range b.Instrs {
+				call, ok := in.(*ssa.Call)
+				if !ok {
+					continue
+				}
+				bi, ok := call.Call.Value.(*ssa.Builtin)
+				if !ok || len(call.Call.Args) != 2 {
+					continue
+				}
+				a0, ok0 := call.Call.Args[0].(*ssa.Slice)
+				a1, ok1 := call.Call.Args[1].(*ssa.Slice)
+				if !ok0 || !ok1 || !sameSrc(a0.X, a1.X) {
+					continue
+				}
+				switch bi.Name() {
+				case "append":
+					if !zeroOrNil(a0.Low) || a0.High == nil || a1.High != nil {
+						continue
+					}
+					st.Instances++
+					c.MarkAnalysed(fn)
+					ok := plusOne(a1.Low, a0.High)
+					st.Ob(ok)
+					st.Sample("%s: append(s[:i], s[i+1:]...) removes exactly element i: %v", core.FuncName(fn), ok)
+					if !ok {
+						c.ReportAt(rule, fn, call.Pos(), "slice-removal:append:"+core.FuncName(fn), core.FuncName(fn)+" rebuilds a slice from the window that ends at one index and a window that does not start at the next one: "+what)
+					}
+				case "copy":
+					if a0.High != nil || a1.High != nil {
+						continue
+					}
+					left := plusOne(a1.Low, a0.Low)  // copy(s[i:], s[i+1:])
+					right := plusOne(a0.Low, a1.Low) // copy(s[i+1:], s[i:])
+					if !left && !right {
+						continue
+					}
+					st.Instances++
+					c.MarkAnalysed(fn)
+					cut := truncated(a0.X)
+					ok := left == cut
+					st.Ob(ok)
+					st.Sample("%s: in-place copy shifts down: %v, slice cut afterwards: %v", core.FuncName(fn), left, cut)
+					if !ok && right {
+						c.ReportAt(rule, fn, call.Pos(), "slice-removal:copy-shifts-up:"+core.FuncName(fn), core.FuncName(fn)+" copies s[i:] onto s[i+1:] (a shift up, as for an insertion) and then cuts the slice by one: element i stays, its neighbour is overwritten with it and the last element is lost: "+what)
+					} else if !ok {
+						c.ReportAt(rule, fn, call.Pos(), "slice-removal:copy-without-cut:"+core.FuncName(fn), core.FuncName(fn)+" shifts the tail of a slice down by one but does not cut the slice: the last element is kept twice: "+what)
+					}
+				}
+			}
+		}
+	}
+}
